@@ -539,6 +539,14 @@ pub fn c14(tier: Tier) -> i32 {
             write_toml(&root.join("cfg.toml"), corpus.to_str().unwrap(), o, v, q);
             (l.clone(), o.iter().chain(v.iter()).chain(q.iter()).filter_map(|n| pat_for(&n.to_lowercase())).filter(|p| live.contains(p)).collect())
         };
+        // every third configured run follows a run with ALL patterns in the same working directory (the report of a configured
+        // run shows the configured patterns, whatever an earlier run left there)
+        let label = if i != sels.len() && i % 3 == 1 {
+            let _ = run_bin(&bin, &cwd, &["--path", corpus.to_str().unwrap()]);
+            format!("{} [after a run with all patterns in the same working directory]", label)
+        } else {
+            label
+        };
         let out = if i == sels.len() { run_bin(&bin, &cwd, &["--path", corpus.to_str().unwrap()]) } else { run_bin(&bin, &cwd, &["--toml", root.join("cfg.toml").to_str().unwrap()]) };
         let rep = std::fs::read_to_string(cwd.join("solstat_report.md"));
         match (out.code, rep) {
@@ -713,6 +721,64 @@ pub fn c14(tier: Tier) -> i32 {
                     });
                 }
             }
+        }
+        let _ = std::fs::remove_dir_all(&root);
+    }
+
+    // ---- the analysed directory named by `.`, `./`, `..`, with a trailing slash, by its absolute path (flag and configuration
+    //      file): the same directory, the same findings
+    {
+        let root = scratch("c14dot");
+        let mk = |d: &str, file: &str| {
+            std::fs::create_dir_all(root.join(d)).unwrap();
+            std::fs::write(root.join(d).join(file), "pragma solidity ^0.8.0;\ncontract X { }\n").unwrap();
+        };
+        mk("work", "InWork.sol");
+        mk("work/inner", "InInner.sol");
+        mk("work/inner/deep", "InDeep.sol");
+        let abs_work = root.join("work").to_string_lossy().to_string();
+        let abs_slash = format!("{}/", abs_work);
+        let cases: Vec<(&str, Vec<String>, Option<String>, Vec<&str>)> = vec![
+            ("work", vec!["--path".into(), ".".into()], None, vec!["InDeep.sol", "InInner.sol", "InWork.sol"]),
+            ("work", vec!["--path".into(), "./".into()], None, vec!["InDeep.sol", "InInner.sol", "InWork.sol"]),
+            ("work/inner", vec!["--path".into(), "..".into()], None, vec!["InDeep.sol", "InInner.sol", "InWork.sol"]),
+            ("work/inner", vec!["--path".into(), "../".into()], None, vec!["InDeep.sol", "InInner.sol", "InWork.sol"]),
+            ("work/inner", vec!["--path".into(), "./deep/".into()], None, vec!["InDeep.sol"]),
+            ("work/inner", vec!["--path".into(), "../inner".into()], None, vec!["InDeep.sol", "InInner.sol"]),
+            ("", vec!["--path".into(), abs_work.clone()], None, vec!["InDeep.sol", "InInner.sol", "InWork.sol"]),
+            ("", vec!["--path".into(), abs_slash.clone()], None, vec!["InDeep.sol", "InInner.sol", "InWork.sol"]),
+            ("", vec!["--path".into(), "work/".into()], None, vec!["InDeep.sol", "InInner.sol", "InWork.sol"]),
+            ("work", vec![], Some(".".into()), vec!["InDeep.sol", "InInner.sol", "InWork.sol"]),
+            ("work/inner", vec![], Some("..".into()), vec!["InDeep.sol", "InInner.sol", "InWork.sol"]),
+            ("work", vec![], Some("./inner/".into()), vec!["InDeep.sol", "InInner.sol"]),
+        ];
+        for (cwd_rel, mut args, toml_path, want) in cases {
+            let cwd = root.join(cwd_rel);
+            let _ = std::fs::remove_file(cwd.join("solstat_report.md"));
+            if let Some(tp) = &toml_path {
+                write_toml(&cwd.join("dot.toml"), tp, &[], &["floating_pragma".to_string()], &[]);
+                args.push("--toml".into());
+                args.push("dot.toml".into());
+            }
+            let argrefs: Vec<&str> = args.iter().map(|s| s.as_str()).collect();
+            let out = run_bin(&bin, &cwd, &argrefs);
+            bin_runs += 1;
+            let mut names: Vec<String> = std::fs::read_to_string(cwd.join("solstat_report.md")).map(|r| report::parse_report(&r, &tb).entries.values().flatten().map(|e| crate::fsx::base_name(&e.0)).collect()).unwrap_or_default();
+            names.sort();
+            names.dedup();
+            if !completed(out.code) || names != want {
+                run.violation(Violation {
+                    site: "binary:directory:spelling-of-the-path-changes-what-is-analysed".into(),
+                    input: format!("working directory <root>/{} arguments {:?} configured path {:?}", cwd_rel, args, toml_path),
+                    expected: format!("findings in {:?}", want),
+                    observed: format!("exit {:?}; files in the report: {:?}; stderr {}", out.code, names, out.stderr),
+                    size: 1,
+                    unit_test: String::new(),
+                    extra: json!({}),
+                });
+            }
+            let _ = std::fs::remove_file(cwd.join("dot.toml"));
+            let _ = std::fs::remove_file(cwd.join("solstat_report.md"));
         }
         let _ = std::fs::remove_dir_all(&root);
     }
@@ -926,6 +992,18 @@ fn init_tree_variant(root: &Path, variant: usize) {
             let name = format!("{}{:02}.sol", "LongContractName".repeat(12), k);
             std::fs::write(proj.join(&name), &body).unwrap();
         }
+    } else if variant == 4 {
+        // every contract lies in a sub-directory (the analysed directory itself lists none), and one of them uses the rarely
+        // seen constructs: unnamed parameters, a tuple with holes, try / bare catch, inline assembly, a loop without parts
+        let _ = std::fs::remove_file(proj.join("a.sol"));
+        let _ = std::fs::remove_file(proj.join("q.sol"));
+        std::fs::create_dir_all(proj.join("sub").join("deeper")).unwrap();
+        std::fs::write(proj.join("sub").join("deeper").join("c.sol"), crate::fsx::SRC_P).unwrap();
+        std::fs::write(
+            proj.join("sub").join("k.sol"),
+            "pragma solidity ^0.8.0;\ninterface IRecv { function onReceived(address, address, uint256, bytes memory) external returns (bytes4); }\ncontract Sink {\n  uint256 h; uint256 g;\n  function onReceived(address, address, uint256, bytes memory) external returns (bytes4) { return 0x150b7a02; }\n  function q() internal returns (uint256, uint256, uint256) { return (1, 2, 3); }\n  function f() public payable {\n    (h, , g) = q();\n    try this.f() { h++; } catch { h--; }\n    assembly { let k := keccak256(0, 32) }\n    for (;;) { break; }\n  }\n}\nstruct Empty { uint256 only; }\nfunction free(uint256 a) pure returns (uint256) { return a + 1; }\n",
+        )
+        .unwrap();
     } else {
         // file names with control and quoting characters (they are copied into the report verbatim)
         for (name, src) in [("Vau\r\nlt.sol", crate::fsx::SRC_PQ), ("tab\tname.sol", crate::fsx::SRC_P), ("sp ace.sol", crate::fsx::SRC_PQ), ("q\"uote'.sol", crate::fsx::SRC_P), ("line\nfeed.sol", crate::fsx::SRC_PQ)] {
@@ -1019,10 +1097,10 @@ pub fn c18(tier: Tier) -> i32 {
     // (initial tree, history): every history from the two small trees; histories of <= 2 actions also from a tree whose
     // report is larger than a megabyte and from a tree with control / quoting characters in file names
     let mut jobs: Vec<(usize, usize)> = Vec::new();
-    for variant in [2usize, 3, 0, 1] {
+    for variant in [2usize, 3, 4, 0, 1] {
         for (k, h) in histories.iter().enumerate() {
             let runs_only = h.iter().all(|a| matches!(a, Act::Run(_)));
-            if variant < 2 || (variant == 3 && h.len() <= 2) || (variant == 2 && h.len() <= 2 && runs_only) {
+            if variant < 2 || ((variant == 3 || variant == 4) && h.len() <= 2) || (variant == 2 && h.len() <= 2 && runs_only) {
                 jobs.push((variant, k));
             }
         }
@@ -1059,7 +1137,7 @@ pub fn c18(tier: Tier) -> i32 {
                     runs += 1;
                     let after = snapshot(&root);
                     let rep_rel = if cwd_rel.is_empty() { "solstat_report.md".to_string() } else { format!("{}/solstat_report.md", cwd_rel) };
-                    let hist = format!("{:?} on the initial tree {} (violation at step {})", h, ["with other files", "of contracts only", "with a report of more than a megabyte", "with control and quoting characters in file names"][variant], step);
+                    let hist = format!("{:?} on the initial tree {} (violation at step {})", h, ["with other files", "of contracts only", "with a report of more than a megabyte", "with control and quoting characters in file names", "with contracts in sub-directories only and rarely used constructs"][variant], step);
                     if !completed(out.code) {
                         vs.push(Violation { site: "run:failed".into(), input: hist.clone(), expected: "the run completes (no panic, no signal)".into(), observed: format!("exit {:?} stderr {}", out.code, out.stderr), size: h.len(), unit_test: String::new(), extra: json!({}) });
                         continue;
